@@ -8,7 +8,9 @@ import json
 import os
 
 with open(os.path.join(os.path.dirname(os.path.abspath(__file__)), "zoo.json"), encoding="utf-8") as _f:
-    ZOO = json.load(_f)
+    _z = json.load(_f)
+ZOO = _z["zoo"]
+ZOO_REWRITE = _z["rewrite"]  # line-rewriting / projecting components (append, replace, collect)
 # components whose output mentions the physical path of the file (differs between a standalone run and a named-file run)
 ZOO_PATH_DEPENDENT = [c for c in ZOO if "run_table" in c]
 ZOO_SAFE = [c for c in ZOO if c not in ZOO_PATH_DEPENDENT]
